@@ -29,3 +29,35 @@ Definition supplied_count (cs : list case) : N :=
   N.of_nat (length (filter (fun c => let '(ds, args, _, traced, _) := c in
                                      negb (Nat.eqb (length (traced_only traced (evals_M ds args))) (length traced)) &&
                                      match bind_M ds args with OBound _ => true | OErr _ => false end) cs)).
+
+(* ---- round 5: cases whose default forms read earlier parameters ---- *)
+Definition xcase := (list xdocarg * list arg * outcome * list N * list N)%type.
+Definition xoutcome_is (m : xoutcome) (obs : outcome) : bool :=
+  match m with XO o => outcome_eqb o obs | XUnbound _ => false end.
+Definition check_xcase (c : xcase) : N :=
+  let '(xs, args, obs, traced, otr) := c in
+  let m := bind_Mx xs args in
+  let em := traced_only traced (evals_Mx xs args) in
+  let dom := in_domain_x xs args in
+  let es := match parse_ll (map shape xs) with Some l => Some (traced_only traced (evals_S l args)) | None => None end in
+  let s_obs := meets_Sx xs args obs && match es with Some e => list_eqb N.eqb e otr | None => true end in
+  let s_m := match m with XO o => meets_Sx xs args o | XUnbound _ => false end &&
+             match es with Some e => list_eqb N.eqb e em | None => true end in
+  if xoutcome_is m obs && list_eqb N.eqb em otr then (if dom && negb s_m then 3 else 0)
+  else if (dom || s_m) && negb s_obs then 2 else 1.
+Fixpoint check_xall_from (i : N) (cs : list xcase) : list (N * N) :=
+  match cs with
+  | [] => []
+  | c :: cs' => let r := check_xcase c in (if N.eqb r 0 then [] else [(i, r)]) ++ check_xall_from (N.succ i) cs'
+  end.
+Definition check_xall := check_xall_from 0.
+Definition xguard_count (cs : list xcase) : N :=
+  N.of_nat (length (filter (fun c => let '(xs, args, _, _, _) := c in in_domain_x xs args) cs)).
+(* cases in which a form read a parameter that had itself been defaulted by pass 2 *)
+Definition chained_count (cs : list xcase) : N :=
+  N.of_nat (length (filter (fun c => let '(xs, args, _, _, _) := c in
+     let ev := evals_Mx xs args in
+     existsb (fun ad => match x_name ad, x_def ad with
+                        | PVar x, Some (FRef y _) => existsb (N.eqb x) ev && negb (existsb (N.eqb y) (map (fun a => match a with AKw k => k | _ => 998 end) args)) &&
+                                                     existsb (fun ad2 => match x_name ad2 with PVar y2 => N.eqb y y2 && negb (existsb (N.eqb y) (firstn (length args) (xparams xs))) | _ => false end) xs
+                        | _, _ => false end) xs) cs)).
